@@ -83,8 +83,8 @@ def translate(repo):
         raise TranslateError("TextFile::lines() is no longer: open object => flush and TextFile(_path).lines(); else open(READ); "
                              "`while (!end()) { lines << String(); if (!readLine(lines.last()) && error()) break; }`; close()")
     body = _flat(cparse.find_function(tf, r"bool\s+TextFile::end\s*\(\s*\)\s*\{"))
-    if "return(_file||open(_path,READ))?feof(_file)!=0:true;" not in body:
-        raise TranslateError("TextFile::end() is no longer feof() of the (lazily opened) file")
+    if "return(_file||open(_path,READ))?(feof(_file)!=0||ferror(_file)!=0):true;" not in body:
+        raise TranslateError("TextFile::end() is no longer `feof || ferror` of the (lazily opened) file")
     # ---- text()
     body = cparse.find_function(tf, r"String\s+TextFile::text\s*\(\s*\)\s*\{")
     flat = _flat(body)
@@ -172,7 +172,9 @@ def translate(repo):
     for needle, what in (("boolexists()const{_info.clear();returncreationDate().time()!=0;}", "File::exists()"),
                          ("boolisFile()const{returncreationDate().time()!=0&&!isDirectory();}", "File::isFile()"),
                          ("File(constFile&f):_file(0),_path(f._path),_info(f._info),_endian(f._endian)", "File copy constructor"),
-                         ("voidflush(){fflush(_file);}", "File::flush()")):
+                         ("voidflush(){fflush(_file);}", "File::flush()"),
+                         ("boolend(){returnfeof(_file)!=0||ferror(_file)!=0;}", "File::end()"),
+                         ("boolerror(){returnferror(_file)!=0;}", "File::error()")):
         if needle not in fhf:
             raise TranslateError("File.h: %s no longer reads `%s`" % (what, needle))
     has(r"int\s+File::read\s*\(\s*void\s*\*\s*p\s*,\s*int\s+n\s*\)\s*\{", "return(int)fread(p,1,n,_file);", "File::read()")
@@ -186,7 +188,7 @@ def translate(repo):
     block = int(ms[0])
     flat = _flat(body)
     if ("do{n=src.read(buffer,sizeof(buffer));if(n<0)returnfalse;intm=dst.write(buffer,n);if(m!=n)returnfalse;}"
-            "while(n==sizeof(buffer));dst.flush();if(dst.error())returnfalse;returntrue;") not in flat:
+            "while(n==sizeof(buffer));if(src.error())returnfalse;dst.flush();if(dst.error())returnfalse;returntrue;") not in flat:
         raise TranslateError("Directory::copy: the block loop no longer has the transcribed shape "
                              "(read sizeof(buffer); write n; repeat while n == sizeof(buffer))")
     if ("structstatsfrom,sto;if(stat(from,&sfrom)==0&&stat(topath,&sto)==0&&sfrom.st_dev==sto.st_dev&&sfrom.st_ino==sto.st_ino)returnfalse;"
@@ -715,7 +717,7 @@ def gen(rng, tier):
     # lines() after writing through the same object / after text() / twice; a reader then a lazily opening writer; File::copy and
     # File::move of an object with unflushed writes; a destination that accepts no byte (/dev/full)
     full_ok = _full_ok()
-    cases.append(["xdirlines", "xdirrlc"])
+    cases.append(["xdirlines", "xdirrlc", "xdirend", "xdircopy", "xwend 6162630a", "xwend -", "xwend " + btok(rng, 5000, nulfree=True)])
     for n in (5, 5000):
         cases.append(["xwrlc " + (hexs(b"ab\ncd") if n == 5 else btok(rng, n, nulfree=True))])
     for i in range(120 if quick else 2000):
@@ -900,9 +902,10 @@ def gen_history(rng, xdev_ok):
         r = rng.random()
         n = rng.choice([0, 1, 2, 5, 17, 254, 255, 256, 600]) if rng.random() < 0.85 else rng.choice([4095, 4096, 4097, 8192, 65536, 70000])
         if in_sess == "w" and r < 0.6:
-            op = rng.choice(["w", "w", "sb", "ss", "sc", "si", "rlc"])
-            if op == "rlc":
-                c.append("rlc %02x" % rng.choice([10, 13, 97]))     # readLine(char) through a writer: comes back empty-handed
+            op = rng.choice(["w", "w", "w", "sb", "ss", "sc", "si", "rlc", "rl", "end"])
+            if op in ("rlc", "rl", "end"):
+                # reading through a writer: comes back empty-handed, and end() says so afterwards
+                c.append("rlc %02x" % rng.choice([10, 13, 97]) if op == "rlc" else op)
                 continue
             if op == "si":
                 c.append("si %d" % rng.choice([0, 1, -1, 2147483647, -2147483648, rng.randrange(-10 ** 6, 10 ** 6)]))
